@@ -125,6 +125,9 @@ def run(ctx):
                     ctx.fail("response", dict(c, adat=[a_hex]), "the identity part of unitary_from_angles(phis) evaluated by the library at w = e^{i arccos a}, a=%r, is %r "
                              "but the Wz/z response is %r" % (a, zu, zv))
                     break
+    for c in (cases if ctx.replay is None else []):
+        if c.get("fn") == "response" and rng.random() < 0.3:
+            c["phis_as_list"] = True       # phases as a Python list
     impl = run_impl(cases, timeout=3000)
     lines, keep = [], []
     for c, r in zip(cases, impl):
